@@ -1,5 +1,7 @@
 import Uom.Model.Duration
 import Uom.Proofs.FlConvIdentity
+import Uom.Proofs.DurationBasic
+import Uom.Proofs.DurationAcc
 /-!
 # C14 — Time ↔ std Duration conversion is total, classified and accurate
 
@@ -10,8 +12,8 @@ The full accuracy statement ("whatever base unit the time is stored in") is **re
 namespace Uom.C14
 open Uom
 
-theorem durationNew_ne_negative (s n : Nat) : durationNew s n ≠ .negative := by
-  unfold durationNew; simp only []; split <;> simp
+theorem durationNew_ne_negative (s n : Nat) : durationNew s n ≠ .negative :=
+  DurationBasic.durationNew_ne_negative s n
 
 /-- **negative exactly when strictly negative** (floats): NaN and −0.0 are not negative -/
 theorem neg_iff (f : Fmt) (fac cs cn v : Fl) :
@@ -44,7 +46,7 @@ theorem toUInt_inf (bits : Nat) (s : Bool) : Fl.toUInt bits (Fl.inf s) = none :=
     place a panic could arise: it needs `secs + nanos / 10⁹ ≥ 2⁶⁴` -/
 theorem new_total (secs nanos : Nat) (hs : secs + nanos / 1000000000 < 2 ^ 64) :
     durationNew secs nanos = .ok (secs + nanos / 1000000000) (nanos % 1000000000) := by
-  unfold durationNew; simp [hs]
+  unfold durationNew; simp only []; rw [if_pos hs]
 
 /-- with `nanos < 2³²` the carry is at most 4 seconds: no panic unless `secs ≥ 2⁶⁴ − 4`, which no
     float below 2⁶⁴ reaches after truncation (the largest such double is 2⁶⁴ − 2¹¹) -/
@@ -53,25 +55,14 @@ theorem carry_small (nanos : Nat) (h : nanos < 2 ^ 32) : nanos / 1000000000 ≤ 
 theorem float_below_two64 : (2 ^ 64 - 2 ^ 11 : Nat) + 4 < 2 ^ 64 := by decide
 
 /-- integer storage: negative exactly when the value is negative -/
-theorem neg_iff_int (fac cs cn : Rat) (v : Int) : durOfTimeInt fac cs cn v = .negative ↔ v < 0 := by
-  unfold durOfTimeInt
-  constructor
-  · intro h
-    by_cases hv : v < 0
-    · exact hv
-    · simp only [hv, if_false] at h
-      revert h
-      repeat' split
-      all_goals first | (intro h; exact absurd h (by simp)) | exact fun h => absurd h (durationNew_ne_negative _ _)
-  · intro h; simp [h]
+theorem neg_iff_int (fac cs cn : Rat) (v : Int) : durOfTimeInt fac cs cn v = .negative ↔ v < 0 :=
+  DurationBasic.neg_iff_int fac cs cn v
 
 /-- **known finding F10**, as a theorem about the transcription: with integer storage and a time base
     unit longer than a second (`cs / fac < 1`, e.g. the minute: 1/60) every non-negative time panics -/
 theorem int_long_base_panics (fac cs cn : Rat) (v : Int) (hv : 0 ≤ v) (hcs : cs ≠ 0) (hf : fac ≠ 0)
-    (h : ratTrunc (cs / fac) = 0) : durOfTimeInt fac cs cn v = .panic := by
-  unfold durOfTimeInt
-  have : ¬ v < 0 := by omega
-  simp [this, hcs, hf, h]
+    (h : ratTrunc (cs / fac) = 0) : durOfTimeInt fac cs cn v = .panic :=
+  DurationBasic.int_long_base_panics fac cs cn v hv hcs hf h
 
 /-- the full accuracy statement for floats, any base unit -/
 def accuracy_full (f : Fmt) : Prop :=
@@ -87,5 +78,63 @@ theorem accuracy_full_false : ¬ accuracy_full b64 := by
     (Fl.ofBits b64 0x3fb5555555555555) 5 999999999 (by decide +kernel)
   revert this
   decide +kernel
+
+/-! ### accuracy where it holds: the second base (floats), decimal sub-second bases (integers)
+
+The full statement is refuted above for a non-second base (F4).  In the base the SI aliases use — the
+second — it is a theorem, for every canonical value, with the sharp constant: the code multiplies the
+fractional part by `1.0 / 1e-9`, which in binary64 is `10⁹ − 2⁻²³`, **not** `10⁹`; every half-integer
+number of seconds therefore loses a whole nanosecond (`1.5 s ↦ 1.499999999 s`) and the error can exceed
+1 ns by `2⁻²³` ns — still "one nanosecond plus a few ulps of the magnitude", as the property says. -/
+
+/-- binary64, second base: **total** (every finite `0 ≤ v < 2⁶⁴` converts — no panic, no spurious
+    overflow) and **accurate** to `(1 + 2⁻²³)` ns -/
+theorem accuracy_second_base_f64 (v : Fl) (hc : Fl.Canonical b64 v) (hfin : v.isFinite = true)
+    (h0 : 0 ≤ v.toRat) (h64 : v.toRat < 2 ^ 64) :
+    ∃ s n : Nat, durOfTimeFl b64 (Fl.one b64) (Fl.one b64) DurationAcc.cn64 v = .ok s n ∧ n < 1000000000 ∧
+      |(s : Rat) + (n : Rat) / 1000000000 - v.toRat| < (1 + 1 / 2 ^ 23) / 1000000000 :=
+  DurationAcc.total_second_base_b64 hc hfin h0 h64
+
+/-- whatever `Ok` the code returns in the second base obeys the bound (no hypothesis on `v` beyond canonicity) -/
+theorem ok_is_accurate_f64 (v : Fl) (hc : Fl.Canonical b64 v) (s n : Nat)
+    (h : durOfTimeFl b64 (Fl.one b64) (Fl.one b64) DurationAcc.cn64 v = .ok s n) :
+    |(s : Rat) + (n : Rat) / 1000000000 - v.toRat| < (1 + 1 / 2 ^ 23) / 1000000000 :=
+  DurationAcc.accuracy_second_base_b64 hc h
+
+/-- binary32: the same with the format's own resolution, `(1 + 10⁹·2⁻²⁴)` ns ≈ 60.6 ns (a few ulps of a
+    sub-second magnitude expressed in nanoseconds) -/
+theorem accuracy_second_base_f32 (v : Fl) (hc : Fl.Canonical b32 v) (hfin : v.isFinite = true)
+    (h0 : 0 ≤ v.toRat) (h64 : v.toRat < 2 ^ 64) :
+    ∃ s n : Nat, durOfTimeFl b32 (Fl.one b32) (Fl.one b32) DurationAcc.cn32 v = .ok s n ∧ n < 1000000000 ∧
+      |(s : Rat) + (n : Rat) / 1000000000 - v.toRat| < (1 + 1000000000 / 2 ^ 24) / 1000000000 :=
+  DurationAcc.total_second_base_b32 hc hfin h0 h64
+
+/-- the nanosecond coefficient used is what the literal `1.0E-9` of src/si/time.rs parses to -/
+theorem nanosecond_literal : Fl.ofDecimal b64 1 (-9) = DurationAcc.cn64 ∧ Fl.ofDecimal b32 1 (-9) = DurationAcc.cn32 :=
+  ⟨DurationAcc.cn64_literal, DurationAcc.cn32_literal⟩
+
+/-- the bound is sharp: 1.5 s converts to 1.499999999 s, and "≤ 1 ns" is false -/
+theorem one_and_a_half_seconds :
+    durOfTimeFl b64 (Fl.one b64) (Fl.one b64) DurationAcc.cn64 (Fl.ofBits b64 0x3ff8000000000000) = .ok 1 499999999 :=
+  DurationAcc.one_and_a_half
+theorem one_nanosecond_is_not_enough : ¬ DurationAcc.accuracy_1ns := DurationAcc.accuracy_1ns_false
+
+/-- values of `2⁶⁴` s or more, `+∞` and NaN report overflow (second base, any float format) -/
+theorem overflow_second_base (f : Fmt) (hf : f.WF) (cn v : Fl) (hc : Fl.Canonical f v)
+    (hneg : Fl.lt v (Fl.zero f false) = false) (h : v.isFinite = true → (2 : Rat) ^ 64 ≤ v.toRat) :
+    durOfTimeFl f (Fl.one f) (Fl.one f) cn v = .overflow :=
+  DurationAcc.overflow_second_base hf cn hc hneg h
+
+/-- integer storage in a decimal sub-second base `10⁻ᵏ s` (second k=0, millisecond 3, microsecond 6,
+    nanosecond 9): the conversion is **exact** — `s·10⁹ + n = v·10⁹⁻ᵏ`, `n < 10⁹` — or overflow, never a panic -/
+theorem int_decimal_base (k : Nat) (hk : k ≤ 9) (v : Int) (hv : 0 ≤ v) :
+    durOfTimeInt (1 / 10 ^ k) 1 (1 / 10 ^ 9) v =
+      if v / 10 ^ k < 2 ^ 64 then .ok (v / 10 ^ k).toNat ((v % 10 ^ k) * 10 ^ (9 - k)).toNat else .overflow :=
+  DurationAcc.durOfTimeInt_decimal k hk v hv
+
+theorem int_decimal_base_exact (k : Nat) (hk : k ≤ 9) (v : Int) (s n : Nat)
+    (h : durOfTimeInt (1 / 10 ^ k) 1 (1 / 10 ^ 9) v = .ok s n) :
+    (s : Int) * 10 ^ 9 + (n : Int) = v * 10 ^ (9 - k) ∧ n < 10 ^ 9 ∧ (s : Int) = v / 10 ^ k :=
+  DurationAcc.durOfTimeInt_decimal_exact k hk v h
 
 end Uom.C14
